@@ -231,6 +231,7 @@ def check_polyline(ctx: Ctx, inst: dict, rng: random.Random) -> None:
 
 def check_circle(ctx: Ctx, inst: dict, rng: random.Random) -> None:
     import classy_blocks as cb
+    import numpy as np
 
     point, vector, scale = similarity(rng)
     R = inst["R"] * inst["flen"] * scale
@@ -266,6 +267,22 @@ def check_circle(ctx: Ctx, inst: dict, rng: random.Random) -> None:
             ctx.violation("circle:discretize-ends", "reversed discretisation does not start/end at the curve's points", rep)
         if abs(tclose - phi) > 1e-4:
             ctx.violation("circle:closest-param", f"closest parameter {tclose} for a query at angle {phi}", rep)
+    # curves given on custom bounds that do not start at zero (an arc from -2 to 1.5 rad, a line extended to both sides,
+    # an analytic curve on [-1.5, 2]): a point of the curve is closest to its own parameter
+    try:
+        arc = cb.CircleCurve(centre, p1, normal, (-2.0, 1.5))
+        ext = cb.LineCurve(p1, point(inst["p2"]), (-1.5, 2.5))
+        a0, a1 = list(p1), list(point(inst["p2"]))
+        ana = cb.AnalyticCurve(lambda t: np.array([a0[i] + (a1[i] - a0[i]) * t + (0.3 * R * t * t if i == 0 else 0.0) for i in range(3)]), (-1.5, 2.0))
+        for name, curve, ts in (("arc", arc, [-1.7, -0.6, -0.05, 0.9]), ("line", ext, [-1.2, -0.3, 0.4, 2.1]), ("analytic", ana, [-1.1, -0.2, 0.7])):
+            for t in ts:
+                ctx.evaluated()
+                got = curve.get_closest_param(curve.get_point(t))
+                if abs(got - t) > 1e-4:
+                    ctx.violation(f"custom-bounds:closest-param:{name}:{'negative' if t < 0 else 'positive'}",
+                                  f"{name} curve on bounds {curve.bounds}: the point at parameter {t} is reported closest to {got}", rep)
+    except Exception as err:  # pylint: disable=broad-except
+        ctx.violation(f"raises:custom-bounds:{type(err).__name__}", str(err), rep)
     # line
     t1, t2 = rng.random(), rng.random()
     try:
